@@ -35,7 +35,7 @@ inductive Exp where
   | antid (m f : Nat)
   | free (m : Nat)
   | ffree (lp m idx tag : Nat)
-  | fdone (lp n : Nat)
+  | fdone (lp n : Nat) (ok : Bool)
 
 structure Thread where
   epoch : Nat := 0
@@ -50,6 +50,13 @@ structure Sys where
   lps : Array (LPState GState) := #[]
   ths : Array Thread := #[]
   lastGvt : Nat := 0
+  rng0 : Array Rng := #[]
+  /-- sequential reference: per-LP dispatched event contents and final states (computed on demand) -/
+  seq : Option (Array (Array Event) × Array GState) := none
+  /-- number of committed (fossil-collected) past entries per LP -/
+  committed : Array Nat := #[]
+  allocs : Nat := 0
+  frees : Nat := 0
 
 def dummyEv : Event := { dest := 0, t := 0, type := 0, payload := [] }
 
@@ -115,9 +122,9 @@ def applyExp (s : Sys) (r : Nat) (e : Exp) (arg : Nat) : Sys × String :=
   | .antid m f => (s, s!"antid {m} f={f}")
   | .free m =>
     if (s.mrec m).freed then (s, s!"double-free {m}")
-    else (s.setRec m { s.mrec m with freed := true }, s!"free {m}")
-  | .ffree lp m i tag => (s, s!"ffree lp={lp} m={m} idx={i} tag={tag}")
-  | .fdone lp n => let _ := r; (s, s!"fdone lp={lp} n={n}")
+    else ({ (s.setRec m { s.mrec m with freed := true }) with frees := s.frees + 1 }, s!"free {m}")
+  | .ffree lp m i tag => (s, s!"ffree lp={lp} m={if tag = 1 then 0 else m} idx={i} tag={tag}")
+  | .fdone lp n ok => let _ := r; (s, s!"fdone lp={lp} n={n} c03={if ok then "ok" else "MISMATCH"}")
 
 def expKind : Exp → String
   | .send .. => "send" | .initPush .. => "initPush" | .antil .. => "antil" | .unproc .. => "unproc"
@@ -168,6 +175,52 @@ def onExtract (s : Sys) (r m f : Nat) : Sys :=
     let s := s.setLp lpI { l with st := st', bound := some (s.ev m).t }
     s.setTh r { (s.th r) with exp := evs ++ outs.map (fun e => Exp.send lpI e) ++ [.fwd m lpI] }
 
+def insertSorted (e : Event) : List Event → List Event
+  | [] => [e]
+  | x :: xs => if Event.before e x then e :: x :: xs else x :: insertSorted e xs
+
+/-- The non-stopping sequential reference execution of the GenModel instance: LP_INIT for every LP,
+then repeatedly the `before`-minimal pending event, until nothing is pending (every LP eventually
+freezes, so this terminates; `fuel` bounds the number of dispatches). Returns the per-LP sequences of
+dispatched event contents (LP_INIT first) and the final LP states. -/
+def seqRun (P : Params) (rng0 : Array Rng) (fuel : Nat) : Array (Array Event) × Array GState :=
+  let n := P.nLps
+  let initEv (lp : Nat) : Event := { dest := lp, t := 0, type := LP_INIT, payload := [] }
+  let (sts, pend, disp) := (List.range n).foldl (fun (acc : Array GState × List Event × Array (Array Event)) lp =>
+    let (sts, pend, disp) := acc
+    let (st', outs) := handler P lp { rng := rng0.getD lp ⟨0, 0, 0, 0⟩ } (initEv lp)
+    (sts.set! lp st', outs.foldl (fun p e => insertSorted e p) pend, disp.set! lp #[initEv lp]))
+    (Array.replicate n ({} : GState), [], Array.replicate n #[])
+  let rec go (fuel : Nat) (sts : Array GState) (pend : List Event) (disp : Array (Array Event)) :=
+    match fuel, pend with
+    | 0, _ => (disp, sts)
+    | _, [] => (disp, sts)
+    | fuel + 1, e :: rest =>
+      let lp := e.dest
+      let (st', outs) := handler P lp (sts.getD lp {}) e
+      go fuel (sts.set! lp st') (outs.foldl (fun p e => insertSorted e p) rest)
+        (disp.set! lp ((disp.getD lp #[]).push e))
+  go fuel sts pend disp
+
+def Sys.withSeq (s : Sys) : Sys :=
+  match s.seq with
+  | some _ => s
+  | none => { s with seq := some (seqRun s.P s.rng0 2000000) }
+
+/-- are the past entries `ms` (contents) the continuation of LP `lp`'s sequential sequence from
+position `from_`? -/
+def Sys.prefixOk (s : Sys) (lp from_ : Nat) (ms : List Nat) : Bool :=
+  match s.seq with
+  | none => false
+  | some (disp, _) =>
+    let d := disp.getD lp #[]
+    (List.range ms.length).all (fun k =>
+      match ms[k]?, d[from_ + k]? with
+      | some m, some e =>
+        let x := s.ev m
+        x.t == e.t && x.type == e.type && x.payload == e.payload && x.dest == e.dest
+      | _, _ => false)
+
 /-- `deq`: the fossil collection that process_msg may run first -/
 def onDequeue (s : Sys) (r m : Nat) : Sys :=
   let lpI := (s.ev m).dest
@@ -186,7 +239,12 @@ def onDequeue (s : Sys) (r m : Nat) : Sys :=
       | none => [])
     let l' := o.lp
     let l' := { l' with bound := if l'.hist.isEmpty then none else l'.bound }
-    (s.setLp lpI l').setTh r { t with exp := evs ++ [.fdone lpI n] }
+    let s := s.withSeq
+    let pm := pastMsgs o.dropped
+    let c0 := s.committed.getD lpI 0
+    let ok := s.prefixOk lpI c0 pm
+    let s := { s with committed := s.committed.set! lpI (c0 + pm.length) }
+    (s.setLp lpI l').setTh r { t with exp := evs ++ [.fdone lpI n ok] }
 
 def parStep (s : Sys) (toks : List String) : Sys × String :=
   match toks with
@@ -194,11 +252,14 @@ def parStep (s : Sys) (toks : List String) : Sys × String :=
     let P : Params := ⟨UInt64.ofNat (nat! seed), nat! lps, nat! types, nat! fan, nat! thr, nat! spread,
       nat! rng != 0, nat! mem != 0, nat! t0 != 0⟩
     ({ s with P := P, lps := Array.replicate (nat! lps) { st := {} },
-              ths := Array.replicate (nat! threads) {} }, "model ok")
+              ths := Array.replicate (nat! threads) {},
+              rng0 := Array.replicate (nat! lps) ⟨0, 0, 0, 0⟩,
+              committed := Array.replicate (nat! lps) 0 }, "model ok")
   | ["period", _] => (s, "period")
   | ["alloc", r, o] =>
     let r := nat! r; let o := nat! o
     let s := s.setRec o { ev := dummyEv }
+    let s := { s with allocs := s.allocs + 1 }
     (s.setTh r { (s.th r) with lastAlloc := o }, s!"alloc {o}")
   | ["init", r, lp, a, b, c, d] =>
     let r := nat! r; let lp := nat! lp
@@ -208,6 +269,7 @@ def parStep (s : Sys) (toks : List String) : Sys × String :=
     let m := t.lastAlloc
     let initEv : Event := { dest := lp, t := 0, type := LP_INIT, payload := [] }
     let s := s.setRec m { ev := initEv, flags := 2, known := true }
+    let s := { s with rng0 := s.rng0.set! lp rng }
     let (st', outs) := hnd s lp { rng := rng } initEv
     let s := s.setLp lp { st := st', bound := some 0 }
     (s.setTh r { t with exp := outs.map (fun e => Exp.send lp e) ++ [.initPush lp m] }, s!"init lp={lp}")
@@ -229,7 +291,8 @@ def parStep (s : Sys) (toks : List String) : Sys × String :=
     if (s.mrec m).queued = 0 then (s, s!"deq-not-queued {m}") else
     let e := s.ev m
     let s := onDequeue s r m
-    (s.setTh r { (s.th r) with cur := m }, s!"deq {m} lp={e.dest} tq={e.t} type={e.type}")
+    let below := decide (e.t < (s.th r).gvt)
+    (s.setTh r { (s.th r) with cur := m }, s!"deq {m} lp={e.dest} tq={e.t} type={e.type}{if below then " BELOW-GVT" else ""}")
   | ["ffree", r, _, m, _, _] => consume s (nat! r) "ffree" (nat! m)
   | ["fdone", r, _, _] => consume s (nat! r) "fdone" 0
   | ["ext", r, m, _f] =>
@@ -253,7 +316,8 @@ def parStep (s : Sys) (toks : List String) : Sys × String :=
       -- frees not announced by an LP-level decision: msg_queue_fini releasing what is still queued
       let rc := s.mrec m
       if rc.freed then (s, s!"double-free {m}")
-      else if rc.queued > 0 then (s.setRec m { rc with freed := true, queued := rc.queued - 1 }, s!"free {m}")
+      else if rc.queued > 0 then
+        ({ (s.setRec m { rc with freed := true, queued := rc.queued - 1 }) with frees := s.frees + 1 }, s!"free {m}")
       else (s, s!"unexpected-free {m}")
   | ["gvt", r, tq] =>
     let r := nat! r; let tq := nat! tq
@@ -264,7 +328,11 @@ def parStep (s : Sys) (toks : List String) : Sys × String :=
   | ["finilp", _, lp] =>
     let lp := nat! lp
     let l := s.lp lp
-    (s, s!"finilp lp={lp} st={hx (digest l.st)} cnt={l.st.cnt.toNat}")
+    let s := s.withSeq
+    let sq := match s.seq with
+      | some (_, sts) => hx (digest (sts.getD lp {}))
+      | none => "?"
+    (s, s!"finilp lp={lp} st={hx (digest l.st)} cnt={l.st.cnt.toNat} seq={sq}")
   | ["fini", r, lp, _, idx, _] =>
     let r := nat! r; let lp := nat! lp; let idx := nat! idx
     match (s.lp lp).hist[idx]? with
@@ -276,16 +344,25 @@ def parStep (s : Sys) (toks : List String) : Sys × String :=
         | .rsent _ => true
         | .past m => (s.mrec m).flags % 2 = 0
       let s := if fr then s.setTh r { t with exp := t.exp ++ [.free e.msg] } else s
-      (s, s!"fini lp={lp} m={e.msg} idx={idx} tag={e.tag}")
+      -- a past entry below the last GVT is committed: it must continue the sequential sequence
+      let s := s.withSeq
+      let (s, c03) := match e with
+        | .past m =>
+          if (s.ev m).t < t.gvt then
+            let c0 := s.committed.getD lp 0
+            let ok := s.prefixOk lp c0 [m]
+            ({ s with committed := s.committed.set! lp (c0 + 1) }, if ok then " c03=ok" else " c03=MISMATCH")
+          else (s, "")
+        | _ => (s, "")
+      (s, s!"fini lp={lp} m={if e.tag = 1 then 0 else e.msg} idx={idx} tag={e.tag}{c03}")
   | "hang" :: rest => (s, " ".intercalate ("hang" :: rest))
-  | ["end"] => (s, "end")
+  | ["end"] =>
+    let leaked := (List.range s.pool.size).filter (fun m => !(s.mrec m).freed)
+    (s, s!"end allocs={s.allocs} frees={s.frees} leaked={leaked.length}")
   | _ => (s, "bad-op")
 
 /-! ### serial mode: the serial runtime's control skeleton over a sorted event list -/
 
-def insertSorted (e : Event) : List Event → List Event
-  | [] => [e]
-  | x :: xs => if Event.before e x then e :: x :: xs else x :: insertSorted e xs
 
 structure SerialSys where
   P : Params := ⟨0, 1, 1, 1, 0, 0, false, false, false⟩
